@@ -130,6 +130,10 @@ def gen_case(rnd, idx, forced_ctx=None, forced_root=None, n=None):
             cmds.append(rg.struct_src(shadow, [("id", "i32")]) +
                         "pub fn %s(app: AppHandle) {\n    let v = %s { id: 0 };\n    let _ = &v;\n    let v = %s { id: 1 };\n    app.emit(\"ev-%s\", &v).unwrap();\n}\n\n" % (
                             nm, shadow, names[target], nm))
+    for r, (target, rk, lab, ty) in enumerate(roots):
+        if rk.startswith("event-") and (idx + r) % 3 == 0:
+            # the same event is emitted again elsewhere with another payload type: the first site's type is still part of the surface
+            cmds.append("pub fn again_%d_%d(app: AppHandle) {\n    app.emit(\"ev-root_%d_%d\", 7u8).unwrap();\n}\n\n" % (idx, r, idx, r))
     if err_only:
         body.setdefault("lib.rs", []).append(rg.struct_src(err_only, [("msg", "String")]))
         if not any(rk == "return-result-ok" for (_, rk, _, _) in roots):
